@@ -71,6 +71,28 @@ def run(chk):
                   {"ref": list(xs), "qs": qs, "k": k, "containers": [c1, c2]})
     b.run()
 
+    # ---- containers with warnings promoted to errors (pytest -W error, strict pipelines): a container that works as a list must work
+    # as an array / Series too - compared with what the LIST gives under the same filter (if the list call itself warns, nothing is claimed)
+    import warnings as _w
+    for xs in inputs[:6]:
+        for e in ENGINES:
+            if e == "hash_based" and max(len(x) for x in xs) > 6:
+                continue
+            def strict(cont, e=e):
+                with _w.catch_warnings():
+                    _w.simplefilter("error")
+                    return core.canon_trips(fns[e](cont, max_edits=1))
+            ref_ = core.call_real(lambda: strict(list(xs)))
+            if ref_[0] != "ok":
+                continue
+            for cname, cont in containers(rng, xs):
+                got_ = core.call_real(lambda: strict(cont))
+                chk.case(nontrivial_key=("strict-warnings", e, cname, str(xs)))
+                chk.count("containers:warnings-as-errors")
+                if got_ != ref_:
+                    chk.violation(f"C10|{e}|{cname}|warnings-as-errors", f"{e} on a {cname} under warnings.simplefilter('error') gives {str(got_)[:100]}, "
+                                  f"the same sequences as a list give {str(ref_)[:60]}", {"engine": e, "xs": list(xs), "container": cname})
+
     # ---- output formats
     cases = []
     for xs in inputs:
@@ -125,7 +147,13 @@ def run(chk):
                     chk.violation(f"C10|{e}|triplets|differs", f"{e} triplets differ from the specification",
                                   {**meta, "real": str(core.canon_trips(val))[:2000], "spec": str(spec_trip)[:2000]})
                 continue
+            # the result must HAVE the requested form (a sparse matrix / a 2-d array), whatever the input size
+            import scipy.sparse as _sp
+            if (ot == "coo_matrix" and not _sp.issparse(val)) or (ot == "ndarray" and not (isinstance(val, np.ndarray) and val.ndim == 2)):
+                chk.violation(f"C10|{e}|{ot}|wrong-type", f"{e}(output_type={ot}) returned a {type(val).__name__} ({str(val)[:60]})", {**meta, "output_type": ot})
+                continue
             if ot == "coo_matrix":
+                val = val.tocoo()
                 rc = list(zip(val.row.tolist(), val.col.tolist()))
                 if len(set(rc)) != len(rc):
                     chk.violation(f"C10|{e}|coo|entry-accumulated-twice", f"{e} coo_matrix lists a (row, col) pair twice",
